@@ -211,15 +211,17 @@ theorem Ext.fkeys_subset {c c' : Ctx} (h : Ext c c') {e : Eid} (he : e ∈ fkeys
   simp only [fkeys, hx, List.map_append, List.mem_append]
   exact Or.inl he
 
-/-- The compiled tag references of the post-filters of the fold `eid` (count `n`) whose source vertex
-`u` is already recorded and active, against the assignment extended by the fold's own count tags. -/
+/-- The compiled tag references of the post-filters of the fold `eid` (count slot `n`: `some k`, or
+`none` when the fold does not exist because its source vertex is missing) whose source vertex `u` is
+already recorded and active, against the assignment extended by the fold's own count tags. -/
 theorem tagSem_post (W : World) (base : List (Name × Tagged)) {c c1 : Ctx} {L : List Ev} {u : Vid}
     {V : IRVertex} (hV : W.comp.vertex? u = some V) (hi : Inv W c L) (hu : Ev.vtx u ∈ L)
-    (hext : Ext c c1) (hact : c1.active = look c u) (himp : ImportsOK W c1 base) (eid : Eid) (n : Nat)
-    (hany : W.comp.folds.any (·.eid == eid) = true) (hcnt : c1.foldCount? eid = some (some n))
+    (hext : Ext c c1) (hact : c1.active = look c u) (himp : ImportsOK W c1 base) (eid : Eid)
+    (n : Option Nat)
+    (hany : W.comp.folds.any (·.eid == eid) = true) (hcnt : c1.foldCount? eid = some n)
     (hn : (base.map (·.1) ++ tagNames W (L ++ [.fold eid])).Nodup)
     (o : List (Name × Value)) :
-    TagSem W u c1 ⟨(absL W base L c).tags ++ (W.CT eid).map fun m => (m, cntTag (some n)), o⟩
+    TagSem W u c1 ⟨(absL W base L c).tags ++ (W.CT eid).map fun m => (m, cntTag n), o⟩
       (TRefPost W u L eid) := by
   have hn1 : (base.map (·.1) ++ tagNames W L).Nodup := by
     rw [tagNames_append, ← List.append_assoc] at hn; exact (List.nodup_append.1 hn).1
@@ -228,7 +230,7 @@ theorem tagSem_post (W : World) (base : List (Name × Tagged)) {c c1 : Ctx} {L :
     ⟨root, rfl, hmem⟩
   rotate_left 2
   · have := tagSem_imported W hV himp hr hnr hnl
-      (L.flatMap (tagsEv W c) ++ (W.CT eid).map fun m => (m, cntTag (some n))) o
+      (L.flatMap (tagsEv W c) ++ (W.CT eid).map fun m => (m, cntTag n)) o
     simpa [absL, List.append_assoc] using this
   rotate_left 1
   · rcases hw with rfl | ⟨hwL, hne, hsome⟩
@@ -256,11 +258,11 @@ theorem tagSem_post (W : World) (base : List (Name × Tagged)) {c c1 : Ctx} {L :
     · rw [tag?_append_left hlook]; rfl
     · intro _; exact tag?_append_left hlook
   · -- the fold's own count tag
-    have hfind : (⟨(absL W base L c).tags ++ (W.CT eid).map fun m => (m, cntTag (some n)), o⟩ : Asg).tag? t =
-        some (cntTag (some n)) := by
+    have hfind : (⟨(absL W base L c).tags ++ (W.CT eid).map fun m => (m, cntTag n), o⟩ : Asg).tag? t =
+        some (cntTag n) := by
       apply tag?_append_right
       · rw [List.map_append, absL_tagNames]
-        have : ((W.CT eid).map fun m => (m, cntTag (some n))).map (·.1) = tagNames W [.fold eid] := by
+        have : ((W.CT eid).map fun m => (m, cntTag n)).map (·.1) = tagNames W [.fold eid] := by
           simp [tagNames, evTagNames, Function.comp_def]
         rw [this, List.append_assoc, ← tagNames_append]; exact hn
       · exact List.mem_map.2 ⟨t, hmem, rfl⟩
